@@ -48,6 +48,36 @@ CLAIMED = {
         note="Trusted: go/ssa, the interpreter and window model, the small-model bound (offsets in the code are ±1, K=3 quick / 5 thorough), rune range (to+1 cannot overflow).",
         technique="static analysis: inductive invariant discharged by finite-world abstract interpretation over orderings with gaps",
         design="§4 C18, §3 E2/E3"),
+    "C02": dict(
+        level="other",
+        text="Partial, structural: decides the loop-free decisions between the LR(1) item sets and the running parser, for every combination of their abstract inputs: Item.action = Dragon-book Alg. 4.56 + INVALID column (R02.1); body length assumed by the automaton = NumSymbols popped by the parser (R02.2); every table writer renders each action kind into the right constructor and column, goto cells follow NTType's index (R02.3); the generated Parse loop, in all four debug/zip variants, is the LR driver (R02.4); augmentation and initial item (R02.5). These are necessary conditions of the property: breaking any of them breaks acceptance for some grammar.",
+        note="NOT decided: that FIRST/closure/goto/GetItemSets compute the canonical collection for every grammar, and that Parse terminates — worklist algorithms over unbounded sets are out of reach of a sound static argument here. Trusted: go/ssa, checker/sx.go, the generated model.",
+        technique="static analysis: decision/transfer-table extraction by finite-world abstract interpretation of SSA (repo code and instantiated templates)",
+        design="§4 C02, Appendix A.2"),
+    "C03": dict(
+        level="other",
+        text="Partial, structural: what gives semantic actions their meaning is decided for all grammars: the synthesised reduce function (user text / nil,nil for empty / X[0]) and NumSymbols (R03.1), the $n/$Tn/$Context rewriting incl. the pattern's language on probes (R03.2), and in the generated Parse (all variants) that a shift pushes the scanner's token object, a reduce pops NumSymbols attributes and calls the action with them and p.Context, an action error returns immediately wrapped by newError, accept returns the last attribute (R03.3).",
+        note="NOT decided: post-order of reductions (follows from LR parsing given C02). Trusted: go/ssa, checker/sx.go, Go's regexp on the constant pattern.",
+        technique="static analysis: decision-table extraction (abstract interpretation of SSA) + event-order tables of the instantiated parser template",
+        design="§4 C03"),
+    "C04": dict(
+        level="other",
+        text="The whole reporting chain is decided row by row: the per-state fold records a conflict iff two non-error actions differ (R04.1); both table writers and the plumbing to main preserve exactly the non-empty conflict sets (R04.2); handleConflicts' exit policy incl. accept-conflicts panicking in both modes (R04.3); every os.Exit has a non-zero constant and nothing recovers panics, so status zero means main returned (R04.4).",
+        note="Assumes the item sets are the canonical LR(1) sets (C02, not decided). Trusted: go/ssa, checker/sx.go.",
+        technique="static analysis: finite-world abstract interpretation of SSA regions + call-site enumeration",
+        design="§4 C04"),
+    "C06": dict(
+        level="other",
+        text="Partial, structural: given a canonical table, the error is exact because (a) reduce entries exist only on the item's exact follow symbol and error cells are nil (Item.action table, cell writers), (b) Parse goes to Error on an empty cell before any reduce, restores the offending token and returns newError, (c) newError carries that token, the top state and exactly the token names with a non-nil cell in index order (all variants), (d) the error type has the stated fields.",
+        note="NOT decided: that rows hold exactly the viable terminals (canonical LR(1) construction, C02). Trusted: go/ssa, checker/sx.go.",
+        technique="static analysis: decision-table extraction + loop-body transfer tables of the instantiated parser template",
+        design="§4 C06"),
+    "C07": dict(
+        level="other",
+        text="Partial, structural: recovery-state flag = 'an item can shift the error symbol' and its emission (R07.1), one spelling of the error symbol (R07.2), and the generated recovery procedure region by region in every world: firstRecoveryState, popNonRecoveryStates, Error (attribute built from the current token and discarded attributes before skipping; shift of error only if the row has an entry; skip loop discards tokens until one is acceptable or input ends), Parse re-dispatching on the resume token (R07.3/4), all four variants.",
+        note="NOT decided: never panics/loops (the template asserts a shift and panics on an empty cell after recovery), inertness on valid input (needs C02), token conservation across several recoveries. Trusted: go/ssa, checker/sx.go.",
+        technique="static analysis: region transfer tables by finite-world abstract interpretation of the instantiated parser template",
+        design="§4 C07"),
 }
 
 NA_REASON_PENDING = "check not built yet in this round (design in DESIGN.md §4); no claim is made until the rule set exists and passes its mutants"
